@@ -40,7 +40,10 @@ OkJoin(e) == LET j == JoinSeconds(e.sec, e.fs, e.bits, e.num, e.den) IN
 OkParseLimit(e) == /\ e.ub = 0
                    /\ e.delta > 0 => e.ok = 0
                    /\ e.delta <= 0 => (e.ok = 1 /\ e.c = (IF e.hi = 1 THEN RepMax(64) \oplus W(e.delta) ELSE RepMin(64) \ominus W(e.delta)))
-Allowed(e) == CASE e.e = "ParseLimit" -> OkParseLimit(e) [] e.e = "Split" -> OkSplit(e) [] e.e = "LookupD" -> OkLookupD(e) [] e.e = "FormatD" -> OkFormatD(e)
+\* tick periods num/den with num # 1 # den: the whole second at or below the instant, floor(c * num / den)
+OkLookupQ(e) == LET sec == WFloorDiv(WMulSmall(e.c, e.num), e.den)[1]  civ == FromSeconds(sec) IN
+                e.ub = 0 /\ e.cs = civ /\ e.cs2 = civ /\ e.out = WDec(sec) \o Bar \o D2(civ[6])
+Allowed(e) == CASE e.e = "LookupQ" -> OkLookupQ(e) [] e.e = "ParseLimit" -> OkParseLimit(e) [] e.e = "Split" -> OkSplit(e) [] e.e = "LookupD" -> OkLookupD(e) [] e.e = "FormatD" -> OkFormatD(e)
                 [] e.e = "ParseBack" -> OkParseBack(e) [] e.e = "Join" -> OkJoin(e) [] e.e = "ParseD" -> OkJoin(e)
                 [] OTHER -> FALSE
 Init == l = 1 /\ bad = 0
